@@ -25,7 +25,7 @@ func init() {
 	register(&propDef{
 		ID: "C19",
 		Meta: propMeta{
-			Explanation: "Decides structural necessary conditions (nothing is executed): (R19a) the byte width EcdsaSignature.Pack pads r and s to is data-dependent on the curve (a parameter of Pack, whose call-site argument is the signing key's Curve, or a Curve.Params() value) and not only on the bit lengths of r and s; the buffer is 2*w bytes and the halves are [0:w] and [w:], the layout UnpackEcdsaSignature splits; (R19b) xmldsig.finishSignature converts DER to r||s exactly under the *ecdsa.PublicKey type test and xmldsig.Verify converts back exactly under pubtype==\"ecdsa\"; (R19c) the algorithm tables round-trip by constant folding of the source literals: HashUris and hashNames have the same keys, every HashUris value is an accepted prefix followed by the hash name, the prefixes and key names the signer emits are the ones parseAlgs accepts, the canonicalisation and transform URIs the signer writes are the ones Verify requires; (R19d) the enveloped-signature transform: Sign removes an existing Signature before digesting and attaches the new one after, Verify detaches the Signature before digesting the reference; SerializeCanonical works on a copy with all three canonical write settings on and drops comments/PIs, and nothing in the module asks the XML parser to preserve CDATA sections or duplicate attributes; R19a also requires every curve bit length to be rounded up to bytes; (R19e) the attribute ordering function resolves prefixes to namespace URIs (Canonical XML 2.2/4.8 orders by URI, not prefix) and orders namespace declarations first; (R19f) appmanifest.Sign and the VSIX signer take the public-key token, publisher identity, signer and chain from one and the same certificate object. (R19g) xmldsig.Verify fails closed: no failed signature check and no reference-digest mismatch can end in a success return (shared with C02 R02d). (R19h) no function result - the canonical form in particular - is memory of an object that went back into a sync.Pool; (R19i) the issuerKeyHash PublisherIdentity returns is computed by x509tools.SubjectKeyID from the issuer's public key and does not depend on a SubjectKeyId/AuthorityKeyId extension field. (R19j) every namespace declaration the OPC (VSIX) signature builder writes is a default-namespace declaration (xmlns, never xmlns:prefix): the declared inclusive canonicalisation and relic's exclusive-style serialisation then yield the same bytes. (R19k) the key size PublicKeyToSnk writes into the strong-name blob is 8 x len(modulus bytes), not a BitLen: the blob the publicKeyToken is computed over describes the bytes it contains.",
+			Explanation: "Decides structural necessary conditions (nothing is executed): (R19a) the byte width EcdsaSignature.Pack pads r and s to is data-dependent on the curve (a parameter of Pack, whose call-site argument is the signing key's Curve, or a Curve.Params() value) and not only on the bit lengths of r and s; the buffer is 2*w bytes and the halves are [0:w] and [w:], the layout UnpackEcdsaSignature splits; (R19b) xmldsig.finishSignature converts DER to r||s exactly under the *ecdsa.PublicKey type test and xmldsig.Verify converts back exactly under pubtype==\"ecdsa\"; (R19c) the algorithm tables round-trip by constant folding of the source literals: HashUris and hashNames have the same keys, every HashUris value is an accepted prefix followed by the hash name, the prefixes and key names the signer emits are the ones parseAlgs accepts, the canonicalisation and transform URIs the signer writes are the ones Verify requires; (R19d) the enveloped-signature transform: Sign removes an existing Signature before digesting and attaches the new one after, Verify detaches the Signature before digesting the reference; SerializeCanonical works on a copy with all three canonical write settings on and drops comments/PIs, and nothing in the module asks the XML parser to preserve CDATA sections or duplicate attributes; R19a also requires every curve bit length to be rounded up to bytes; (R19e) the attribute ordering function resolves prefixes to namespace URIs (Canonical XML 2.2/4.8 orders by URI, not prefix) and orders namespace declarations first; (R19f) appmanifest.Sign and the VSIX signer take the public-key token, publisher identity, signer and chain from one and the same certificate object. (R19g) xmldsig.Verify fails closed: no failed signature check and no reference-digest mismatch can end in a success return (shared with C02 R02d). (R19h) no function result - the canonical form in particular - is memory of an object that went back into a sync.Pool; (R19i) the issuerKeyHash PublisherIdentity returns is computed by x509tools.SubjectKeyID from the issuer's public key and does not depend on a SubjectKeyId/AuthorityKeyId extension field. (R19j) every namespace declaration the OPC (VSIX) signature builder writes is a default-namespace declaration (xmlns, never xmlns:prefix): the declared inclusive canonicalisation and relic's exclusive-style serialisation then yield the same bytes. (R19l) no string a function of lib/appmanifest returns is produced by strconv.FormatUint / FormatInt / Itoa or by a Sprintf verb that prints an integer without a zero-padded width: publicKeyToken and issuerKeyHash keep their leading zeros (zero instances today, positive control testdata/ctl/hexid). (R19k) the key size PublicKeyToSnk writes into the strong-name blob is 8 x len(modulus bytes), not a BitLen: the blob the publicKeyToken is computed over describes the bytes it contains.",
 			NotDecided:  "equality of SerializeCanonical with W3C exclusive c14n on arbitrary documents (redundant namespace redeclarations, xml:* attribute inheritance, InclusiveNamespaces, character escaping are delegated to etree's writer and not examined); whether re-serialised signed documents still verify; correctness of PublicKeyToken/PublisherIdentity values themselves.",
 			Assumptions: []string{"etree's CanonicalEndTags/CanonicalText/CanonicalAttrVal settings implement the c14n text rules", "W3C Canonical XML 1.0 section 2.2/3.3 as the reference for attribute order (PoC uses the spec's own example)"},
 		},
